@@ -38,6 +38,17 @@ def handle (fn : String) : Handler := fun a impl =>
     -- spec: the y < q with 2y ≡ x (mod q), for odd q and x < q
     some (withMod q fun m => fR toString (div2Mod x m),
           specIf (x < q ∧ q % 2 = 1) s!"{(x * ((q+1)/2)) % q}")
+  | "add_u64_carry", [a, b, c] =>
+    let a := pNat a; let b := pNat b; let c := pNat c
+    let (r, co) := addU64Carry a b c
+    some (s!"{r}/{co}", s!"{(a + b + c) % 2^64}/{(a + b + c) / 2^64}")
+  | "sub_u64_borrow", [a, b, c] =>
+    let a := pNat a; let b := pNat b; let c := pNat c
+    let (r, bo) := subU64Borrow a b c
+    some (s!"{r}/{bo}", s!"{(a + 2^64 - b - c) % 2^64}/{if a < b + c then 1 else 0}")
+  | "multiply_u64_u64", [a, b] =>
+    let a := pNat a; let b := pNat b
+    some (s!"{mulLo a b}/{mulHi a b}", s!"{(a * b) % 2^64}/{(a * b) / 2^64}")
   | "add_u64_mod", [x, y, q] =>
     let x := pNat x; let y := pNat y; let q := pNat q
     some (withMod q fun m => fR toString (addMod x y m), specIf (x < q ∧ y < q) s!"{(x+y) % q}")
